@@ -93,6 +93,20 @@ func (d *Ar) Next() (*ArEntry, error) {
 		return nil, err
 	}
 
+	// The length of the underlying file is not known, so make sure the
+	// member's data is all there by reading its last byte. The padding byte
+	// after an odd sized final member is not insisted on.
+	if entry.Size > 0 {
+		last := make([]byte, 1)
+		n, err := d.in.ReadAt(last, d.offset+int64(count)+entry.Size-1)
+		if n != len(last) {
+			if err == nil || err == io.EOF {
+				err = io.ErrUnexpectedEOF
+			}
+			return nil, fmt.Errorf("member %q is truncated: %w", entry.Name, err)
+		}
+	}
+
 	entry.Data = io.NewSectionReader(d.in, d.offset+int64(count), entry.Size)
 	d.offset += int64(count) + entry.Size + (entry.Size % 2)
 
